@@ -162,12 +162,121 @@ func c02Gating(c *Ctx, preds []*ssa.Function) {
 		isPred[p] = true
 	}
 	rule := "typestate: after a *ValidationResult is appended to the outcome, and after every later store to its Error field, every path to a success-capable exit passes the false edge of the critical-failure predicate applied to that object (or a direct Error == nil gate)"
-	for _, fn := range w.FuncsOfPkg("verifier") {
-		fi := w.Info(fn)
-		mode := Mode{Kind: mErr}
-		if n := fn.Signature.Results().Len(); n == 0 || !isErrorType(fn.Signature.Results().At(n-1).Type()) {
-			continue // reports through an object: its caller gates the result
+	type event struct {
+		in   ssa.Instruction
+		base ssa.Value
+		what string
+	}
+	hasErr := func(fn *ssa.Function) bool {
+		n := fn.Signature.Results().Len()
+		return n > 0 && isErrorType(fn.Signature.Results().At(n-1).Type())
+	}
+	// A helper that appends its PARAMETER to the outcome (`record(result)`: a closure, a method, a function): the append is an
+	// event of every caller, on the argument it hands in.
+	//   appendsParam[g][i]: g appends parameter i (gating may be left to the caller, by the ordinary gates);
+	//   gatesParam[g][i]:   g has an error result and g's own obligation for that append holds — on g's graph every
+	//                       success-capable exit behind the append passes the false edge of the predicate on the parameter.
+	//                       g answers nil only if the object handed in is not a critical failure: in a caller, the edge
+	//                       "the error of g(x) is nil" IS a false edge of the predicate on x (for the append made by g and
+	//                       for any earlier store to x.Error), and an exit that hands g's error on is not a success of its own.
+	appendsParam := map[*ssa.Function]map[int]bool{}
+	gatesParam := map[*ssa.Function]map[int]bool{}
+	paramIndex := func(fn *ssa.Function, v ssa.Value) int {
+		for i, q := range fn.Params {
+			if ssa.Value(q) == v {
+				return i
+			}
 		}
+		return -1
+	}
+	// witness: a path from the event to a success-capable exit of fn that passes no gate of the object
+	witness := func(fn *ssa.Function, ev event) []string {
+		fi := w.Info(fn)
+		accept := fwdPhis(ev.base)
+		after := func(in ssa.Instruction) bool { // not before the event in the event's own block
+			return in.Block() != ev.in.Block() || instrIndex(in) >= instrIndex(ev.in)
+		}
+		cut := fi.edgesMatching(func(l string, iff *ssa.If, truth bool) bool {
+			cond := iff.Cond
+			neg := false
+			for {
+				u, ok := cond.(*ssa.UnOp)
+				if !ok || u.Op != token.NOT {
+					break
+				}
+				neg = !neg
+				cond = u.X
+			}
+			t := truth != neg
+			switch x := cond.(type) {
+			case *ssa.Call:
+				g := staticCallee(x)
+				if g != nil && isPred[g] && len(x.Call.Args) == 1 && accept[x.Call.Args[0]] && !t {
+					// the predicate call must come after the event when in the same block
+					return after(x)
+				}
+			case *ssa.BinOp:
+				var o ssa.Value
+				if isNilConst(x.Y) {
+					o = x.X
+				} else if isNilConst(x.X) {
+					o = x.Y
+				} else {
+					return false
+				}
+				isNil := (x.Op == token.EQL && t) || (x.Op == token.NEQ && !t)
+				if !isNil {
+					return false
+				}
+				if u, ok := o.(*ssa.UnOp); ok && u.Op == token.MUL {
+					if fa, ok := u.X.(*ssa.FieldAddr); ok && accept[fa.X] && fieldName(fa.X.Type(), fa.Field) == "Error" {
+						return after(u)
+					}
+				}
+			}
+			return false
+		})
+		// gates made by a gating helper the object is handed to
+		tails := map[*ssa.Call]bool{}
+		for _, ci := range allCalls(fn) {
+			call, ok := ci.(*ssa.Call)
+			if !ok || !after(call) {
+				continue
+			}
+			g := staticCallee(call)
+			if g == nil || len(gatesParam[g]) == 0 || len(call.Call.Args) != len(g.Params) {
+				continue
+			}
+			for i := range g.Params {
+				if gatesParam[g][i] && accept[call.Call.Args[i]] {
+					tails[call] = true
+					d := "EQ(" + descTailErr(call) + ",nil)"
+					for e := range fi.edgesMatching(func(l string, _ *ssa.If, _ bool) bool { return l == d }) {
+						cut[e] = true
+					}
+				}
+			}
+		}
+		saved := fi.ignoreTail
+		if len(tails) > 0 {
+			fi.ignoreTail = tails
+		}
+		c.Evals++
+		path := fi.successWitness(Mode{Kind: mErr}, []state{{ev.in.Block().Index, 0, -1}}, cut)
+		fi.ignoreTail = saved
+		return path
+	}
+	check := func(fn *ssa.Function, ev event) {
+		key := fmt.Sprintf("gated/%s/%s/%s", fnName(fn), descDepth(ev.base, 3), strings.ReplaceAll(ev.what, " ", "-"))
+		if path := witness(fn, ev); path != nil {
+			c.Bad(key, rule, w.InstrPos(ev.in), "after this "+ev.what+" of "+desc(ev.base)+" a success-capable exit is reachable without gating the result", path...)
+		} else {
+			c.OK(key, rule, w.InstrPos(ev.in))
+		}
+	}
+	fns := w.FuncsOfPkg("verifier")
+	events := map[*ssa.Function][]event{}
+	for _, fn := range fns {
 		// returned values are the caller's responsibility
 		returned := map[ssa.Value]bool{}
 		for _, b := range fn.Blocks {
@@ -177,12 +286,14 @@ func c02Gating(c *Ctx, preds []*ssa.Function) {
 				}
 			}
 		}
-		type event struct {
-			in   ssa.Instruction
-			base ssa.Value
-			what string
+		add := func(ev event) {
+			for v := range fwdPhis(ev.base) {
+				if returned[v] {
+					return
+				}
+			}
+			events[fn] = append(events[fn], ev)
 		}
-		var events []event
 		for _, b := range fn.Blocks {
 			for _, in := range b.Instrs {
 				switch x := in.(type) {
@@ -194,7 +305,7 @@ func c02Gating(c *Ctx, preds []*ssa.Function) {
 					if isNilConst(x.Val) {
 						continue
 					}
-					events = append(events, event{in, fa.X, "store to Error"})
+					add(event{in, fa.X, "store to Error"})
 				case *ssa.Call:
 					// append(outcome.VerificationResults, r)
 					if bi, ok := x.Call.Value.(*ssa.Builtin); !ok || bi.Name() != "append" || len(x.Call.Args) != 2 {
@@ -205,80 +316,60 @@ func c02Gating(c *Ctx, preds []*ssa.Function) {
 					}
 					for _, el := range appendedElems(x.Call.Args[1]) {
 						if isVRPtr(el.Type()) {
-							events = append(events, event{in, el, "append to VerificationResults"})
+							add(event{in, el, "append to VerificationResults"})
+							if i := paramIndex(fn, el); i >= 0 {
+								if appendsParam[fn] == nil {
+									appendsParam[fn] = map[int]bool{}
+								}
+								appendsParam[fn][i] = true
+							}
 						}
 					}
 				}
 			}
 		}
-		if len(events) == 0 {
+	}
+	// which helpers gate the parameter they append (decided on the helper's own graph, with the ordinary gates only)
+	for _, fn := range fns {
+		if !hasErr(fn) {
+			continue
+		}
+		for _, ev := range events[fn] {
+			if i := paramIndex(fn, ev.base); i >= 0 && strings.HasPrefix(ev.what, "append") && witness(fn, ev) == nil {
+				if gatesParam[fn] == nil {
+					gatesParam[fn] = map[int]bool{}
+				}
+				gatesParam[fn][i] = true
+			}
+		}
+	}
+	for _, fn := range fns {
+		if !hasErr(fn) {
+			continue // no error result: reports through an object, its caller gates the result
+		}
+		evs := events[fn]
+		// the calls of appending helpers: an append event of this function, on the argument
+		for _, ci := range allCalls(fn) {
+			call, ok := ci.(*ssa.Call)
+			if !ok {
+				continue
+			}
+			g := staticCallee(call)
+			if g == nil || len(appendsParam[g]) == 0 || len(call.Call.Args) != len(g.Params) {
+				continue
+			}
+			for i := range g.Params {
+				if appendsParam[g][i] {
+					evs = append(evs, event{call, call.Call.Args[i], "append to VerificationResults by " + fnName(g)})
+				}
+			}
+		}
+		if len(evs) == 0 {
 			continue
 		}
 		c.SeenFn(fn.String())
-		for _, ev := range events {
-			accept := fwdPhis(ev.base)
-			skip := false
-			for v := range accept {
-				if returned[v] {
-					skip = true
-				}
-			}
-			if skip {
-				continue
-			}
-			cut := fi.edgesMatching(func(l string, iff *ssa.If, truth bool) bool {
-				cond := iff.Cond
-				neg := false
-				for {
-					u, ok := cond.(*ssa.UnOp)
-					if !ok || u.Op != token.NOT {
-						break
-					}
-					neg = !neg
-					cond = u.X
-				}
-				t := truth != neg
-				switch x := cond.(type) {
-				case *ssa.Call:
-					g := staticCallee(x)
-					if g != nil && isPred[g] && len(x.Call.Args) == 1 && accept[x.Call.Args[0]] && !t {
-						// the predicate call must come after the event when in the same block
-						if x.Block() == ev.in.Block() && instrIndex(x) < instrIndex(ev.in) {
-							return false
-						}
-						return true
-					}
-				case *ssa.BinOp:
-					var o ssa.Value
-					if isNilConst(x.Y) {
-						o = x.X
-					} else if isNilConst(x.X) {
-						o = x.Y
-					} else {
-						return false
-					}
-					isNil := (x.Op == token.EQL && t) || (x.Op == token.NEQ && !t)
-					if !isNil {
-						return false
-					}
-					if u, ok := o.(*ssa.UnOp); ok && u.Op == token.MUL {
-						if fa, ok := u.X.(*ssa.FieldAddr); ok && accept[fa.X] && fieldName(fa.X.Type(), fa.Field) == "Error" {
-							if u.Block() == ev.in.Block() && instrIndex(u) < instrIndex(ev.in) {
-								return false
-							}
-							return true
-						}
-					}
-				}
-				return false
-			})
-			c.Evals++
-			key := fmt.Sprintf("gated/%s/%s/%s", fnName(fn), descDepth(ev.base, 3), strings.ReplaceAll(ev.what, " ", "-"))
-			if path := fi.successWitness(mode, []state{{ev.in.Block().Index, 0, -1}}, cut); path != nil {
-				c.Bad(key, rule, w.InstrPos(ev.in), "after this "+ev.what+" of "+desc(ev.base)+" a success-capable exit is reachable without gating the result", path...)
-			} else {
-				c.OK(key, rule, w.InstrPos(ev.in))
-			}
+		for _, ev := range evs {
+			check(fn, ev)
 		}
 	}
 }
@@ -313,7 +404,6 @@ func appendedElems(v ssa.Value) []ssa.Value {
 func c02Pairing(c *Ctx) {
 	w := c.W
 	rule := "every notation.ValidationResult allocation stores a constant Type T and Action = <outcome>.VerificationLevel.Enforcement[T] with the same T"
-	n := 0
 	seenTypes := map[string]bool{}
 	for _, fn := range w.Funcs {
 		for _, b := range fn.Blocks {
@@ -325,7 +415,6 @@ func c02Pairing(c *Ctx) {
 				if _, isPtr := al.Type().Underlying().(*types.Pointer); !isPtr {
 					continue
 				}
-				n++
 				c.Evals++
 				var typ, act ssa.Value
 				for _, r := range *al.Referrers() {
@@ -345,32 +434,70 @@ func c02Pairing(c *Ctx) {
 					}
 				}
 				key := fmt.Sprintf("pairing/%s#%d", fnName(fn), ordinalIn(fn, al))
-				tc, ok1 := typ.(*ssa.Const)
-				if !ok1 || tc.Value == nil {
+				if typ == nil {
+					c.Bad(key, rule, w.InstrPos(al), "Type is not a constant (or not set): "+desc(typ))
+					continue
+				}
+				tc, isConst := typ.(*ssa.Const)
+				if isConst && tc.Value == nil {
 					c.Bad(key, rule, w.InstrPos(al), "Type is not a constant (or not set): "+desc(typ))
 					continue
 				}
 				lk, ok2 := act.(*ssa.Lookup)
 				if !ok2 || lk.CommaOk {
+					if !isConst {
+						c.Bad(key, rule, w.InstrPos(al), "Type is not a constant (or not set): "+desc(typ))
+						continue
+					}
 					c.Bad(key, rule, w.InstrPos(al), "Action is not a plain lookup in the enforcement map: "+desc(act))
 					continue
 				}
-				kc, ok3 := lk.Index.(*ssa.Const)
+				// "the same T": two constants of equal value, or — in a constructor of results — one and the same SSA value
+				// stored as Type and used as the key of the lookup (whatever T is at run time, the Action is the level's entry
+				// for exactly that T)
+				same := false
+				if isConst {
+					kc, ok3 := lk.Index.(*ssa.Const)
+					same = ok3 && constString(kc) == constString(tc)
+				} else {
+					same = c02Unconv(typ) == c02Unconv(lk.Index)
+				}
+				if !same {
+					c.Bad(key, rule, w.InstrPos(al), fmt.Sprintf("Action is looked up under %s but Type is %s", desc(lk.Index), desc(typ)))
+					continue
+				}
 				md := desc(lk.X)
-				if !ok3 || constString(kc) != constString(tc) {
-					c.Bad(key, rule, w.InstrPos(al), fmt.Sprintf("Action is looked up under %s but Type is %s", desc(lk.Index), constString(tc)))
+				if isConst {
+					if !strings.HasSuffix(md, ".VerificationLevel.Enforcement") {
+						c.Bad(key, rule, w.InstrPos(al), "Action is not taken from the outcome's VerificationLevel.Enforcement but from "+md)
+						continue
+					}
+					seenTypes[constString(tc)] = true
+					c.OK(key, rule, w.InstrPos(al))
 					continue
 				}
-				if !strings.HasSuffix(md, ".VerificationLevel.Enforcement") {
-					c.Bad(key, rule, w.InstrPos(al), "Action is not taken from the outcome's VerificationLevel.Enforcement but from "+md)
+				// "a constant T": the allocation sits in a constructor that is handed T. The clause is decided where T is
+				// chosen: at every call of the constructor (all of them known: c05CallSites) the argument is a constant, and
+				// the level the constructor reads is the outcome's there. One obligation per call.
+				uses, why := c02TypeUses(w, fn, typ, md, 0)
+				if why != "" {
+					c.Bad(key, rule, w.InstrPos(al), "Type is not a constant (or not set): "+desc(typ)+" ("+why+")")
 					continue
 				}
-				seenTypes[constString(tc)] = true
 				c.OK(key, rule, w.InstrPos(al))
+				for _, u := range uses {
+					c.Evals++
+					ukey := fmt.Sprintf("pairing/%s/via/%s#%d", fnName(u.site.Parent()), fnName(fn), c02CallOrdinal(u.site))
+					if !strings.HasSuffix(u.md, ".VerificationLevel.Enforcement") {
+						c.Bad(ukey, rule, w.InstrPos(u.site), "Action is not taken from the outcome's VerificationLevel.Enforcement but from "+u.md)
+						continue
+					}
+					seenTypes[constString(u.k)] = true
+					c.OK(ukey, rule, w.InstrPos(u.site))
+				}
 			}
 		}
 	}
-	_ = n
 	// vacuity guard by meaning, not by site count: every validation type has at least one well-paired result
 	var missing []string
 	for _, name := range []string{"TypeIntegrity", "TypeAuthenticity", "TypeAuthenticTimestamp", "TypeExpiry", "TypeRevocation"} {
@@ -414,6 +541,7 @@ func c02Inventory(c *Ctx, preds []*ssa.Function) {
 	ruleE := "who-may-read: VerificationLevel.Enforcement is read only to fill ValidationResult.Action, to compare the revocation action with skip, or to seed a custom level"
 	ruleA := "who-may-read: ValidationResult.Action is read only by the critical-failure predicate, by result-less logging helpers, or merely compared with constants (it is never copied, stored or passed on)"
 	nE, nA := 0, 0
+	kinds := map[string]bool{}
 	for _, fn := range w.Funcs {
 		for _, b := range fn.Blocks {
 			for _, in := range b.Instrs {
@@ -436,16 +564,25 @@ func c02Inventory(c *Ctx, preds []*ssa.Function) {
 							switch x := u.(type) {
 							case *ssa.Lookup:
 								if useIsActionStore(x) {
+									kinds["filling ValidationResult.Action"] = true
+									// a constructor of results reads the map once for all its callers: each call is a read
+									if par, isPar := c02Unconv(x.Index).(*ssa.Parameter); isPar && par.Parent() == fn {
+										if sites, closed := c05CallSites(w, fn); closed && len(sites) > 1 {
+											nE += len(sites) - 1
+										}
+									}
 									c.OK(key, ruleE, w.InstrPos(x))
 									continue
 								}
 								if kc, ok := x.Index.(*ssa.Const); ok && constString(kc) == fmt.Sprintf("%q", tr) && onlyComparedWith(x, fmt.Sprintf("%q", as)) {
+									kinds["comparing the revocation action with skip"] = true
 									c.OK(key, ruleE, w.InstrPos(x))
 									continue
 								}
 								c.Bad(key, ruleE, w.InstrPos(x), "the enforcement map is consulted for another purpose: "+desc(x))
 							case *ssa.Range:
 								if fnName(fn) == "(*ngo/verifier/trustpolicy.SignatureVerification).GetVerificationLevel" || fnPkg(fn).Path() == modPath+"/verifier/trustpolicy" {
+									kinds["seeding a custom level in package trustpolicy"] = true
 									c.OK(key, ruleE, w.InstrPos(x))
 								} else {
 									c.Bad(key, ruleE, w.InstrPos(x), "the enforcement map is iterated outside the trust policy package")
@@ -456,6 +593,9 @@ func c02Inventory(c *Ctx, preds []*ssa.Function) {
 							case *ssa.Call:
 								// maps.Clone / maps.Copy of the base level's map inside the trust policy package: seeding a custom level
 								if n := calleeName(x); (n == "maps.Clone" || n == "maps.Copy" || n == "builtin:len") && fnPkg(fn).Path() == modPath+"/verifier/trustpolicy" {
+									if n != "builtin:len" {
+										kinds["seeding a custom level in package trustpolicy"] = true
+									}
 									c.OK(key, ruleE, w.InstrPos(x))
 								} else if isFormattingCall(x) {
 									c.OK(key, ruleE, w.InstrPos(x))
@@ -486,8 +626,16 @@ func c02Inventory(c *Ctx, preds []*ssa.Function) {
 			}
 		}
 	}
-	if nE < 8 {
-		c.Unk("enforcement-read#count", ruleE, "-", fmt.Sprintf("only %d reads of the enforcement map found", nE))
+	// vacuity guard: the inventory has found each of the three legitimate kinds of read, and at least 8 reads in all (a
+	// constructor of results reads the map in one place for all its callers: counted once per call)
+	var missing []string
+	for _, k := range []string{"filling ValidationResult.Action", "comparing the revocation action with skip", "seeding a custom level in package trustpolicy"} {
+		if !kinds[k] {
+			missing = append(missing, k)
+		}
+	}
+	if len(missing) > 0 || nE < 8 {
+		c.Unk("enforcement-read#count", ruleE, "-", fmt.Sprintf("%d reads of the enforcement map found, none for: %s", nE, strings.Join(missing, "; ")))
 	}
 }
 
@@ -1149,21 +1297,7 @@ func c02Verdicts(c *Ctx, F *ssa.Function, execInF *ssa.Call) {
 		rule := "plugin verdict: under capability " + cap.val + " every path from a verdict with Success == false to the next iteration or to a success exit stores a non-nil Error into a validation result (which rule b then gates)"
 		// blocks that store a non-nil Error into a ValidationResult
 		cut := map[edgeKey]bool{}
-		nStores := 0
-		for _, b := range R.Blocks {
-			for _, in := range b.Instrs {
-				st, isSt := in.(*ssa.Store)
-				if !isSt {
-					continue
-				}
-				fa, isFa := st.Addr.(*ssa.FieldAddr)
-				if !isFa || !isVRPtr(fa.X.Type()) || fieldName(fa.X.Type(), fa.Field) != "Error" || !fi.nonNil(st.Val, b) {
-					continue
-				}
-				nStores++
-				cutInto(fi, b, cut)
-			}
-		}
+		nStores := c02ErrorStores(w, fi, R, cut)
 		// the failing-verdict edges under this capability
 		var starts []state
 		headers := capHeaders
@@ -1259,7 +1393,9 @@ func c02Routing(c *Ctx, ro *c02Roles) {
 		if hasTI && hasChain && isErrorType(call.Type()) {
 			idCall = call
 		}
-		if g.Signature.Results().Len() == 1 && isVRPtr(g.Signature.Results().At(0).Type()) && allocatesType(w, g, fmt.Sprintf("%q", tr)) {
+		// the native revocation check: it hands back the validation result of type revocation (allocated by itself or by a
+		// constructor of results it calls with that type)
+		if g.Signature.Results().Len() == 1 && isVRPtr(g.Signature.Results().At(0).Type()) && c02ReturnsType(w, g, fmt.Sprintf("%q", tr)) {
 			revCall = call
 		}
 	}
@@ -1297,7 +1433,7 @@ func c02Routing(c *Ctx, ro *c02Roles) {
 						idCall, idInner = site, call
 					}
 				}
-				if revCall == nil && g.Signature.Results().Len() == 1 && isVRPtr(g.Signature.Results().At(0).Type()) && allocatesType(w, g, fmt.Sprintf("%q", tr)) {
+				if revCall == nil && g.Signature.Results().Len() == 1 && isVRPtr(g.Signature.Results().At(0).Type()) && c02ReturnsType(w, g, fmt.Sprintf("%q", tr)) {
 					if site := c02StageCall(ro, call); site != nil {
 						revCall = site
 					}
@@ -1411,6 +1547,7 @@ func c02Routing(c *Ctx, ro *c02Roles) {
 		rule := "routing: a capability is put on the plugin request only if it is not (revocation while the level skips revocation)"
 		// the request: the capability list handed to the plugin execution
 		var reqV ssa.Value
+		var reqCall *ssa.Call
 		for _, ci := range allCalls(F) {
 			call, ok := ci.(*ssa.Call)
 			if !ok {
@@ -1422,17 +1559,33 @@ func c02Routing(c *Ctx, ro *c02Roles) {
 			}
 			for _, a := range call.Call.Args {
 				if c02IsCapsType(a.Type()) {
-					reqV = a
+					reqV, reqCall = a, call
 				}
 			}
 		}
 		lst := &c02Lists{ro: ro, rv: rv, ti: ti, seen: map[*ssa.Call]bool{}}
 		var reqApps []*ssa.Call
-		if reqV == nil || !lst.requestAppends(reqV, &reqApps) || len(reqApps) == 0 {
+		var reuse []c02Pos
+		if reqV == nil || !lst.requestSources(reqV, c02Pos{F, reqCall.Block(), -1}, capsDeclared, &reqApps, &reuse) || len(reqApps)+len(reuse) == 0 {
 			c.Unk("routing/request-omits-skipped-revocation", rule, w.FnPos(F), "the construction of the plugin request capability list was not recognised "+lst.why)
 		} else {
 			okGate, okFrom := true, true
-			site, from := w.InstrPos(reqApps[0]), ""
+			site, from := w.FnPos(F), ""
+			if len(reqApps) > 0 {
+				site = w.InstrPos(reqApps[0])
+			}
+			// the declared list used as the request as it is: only where the level does not skip revocation
+			for _, pos := range reuse {
+				f := pos.fn
+				cut := w.Info(f).edgesMatching(ro.lift(f, func(l string, _ *ssa.If, _ bool) bool {
+					return strings.HasPrefix(l, "NE(") && strings.HasSuffix(l, skipRev)
+				}))
+				c.Evals++
+				if len(cut) == 0 || !c02PosBlocked(w, pos, cut) {
+					okGate = false
+					site = w.InstrPos(blockTerm(pos.b))
+				}
+			}
 			for _, a := range reqApps {
 				f := a.Parent()
 				ffi := w.Info(f)
